@@ -613,7 +613,11 @@ def slice_get(m, s, i):
         r = range_bounds(i, len(s))
         if r is None or r[0] > r[1] or r[1] > len(s): return NONE()
         return SOME(Slice(s.vec, s.lo + r[0], s.lo + r[1]))
-    if is_sym(i): raise Unsupported("symbolic slice::get index")
+    if is_sym(i):
+        # the slice length is concrete: decide the index against each position
+        for j in range(len(s)):
+            if m.branch_bool(i == j): return SOME(Ref(s.vec.items, s.lo + j))
+        return NONE()
     return SOME(Ref(s.vec.items, s.lo + i)) if 0 <= i < len(s) else NONE()
 
 
@@ -843,6 +847,15 @@ def g_ord_ops(m, path, a, b):
     c = cmp_values(m, a, b)
     op = path.rsplit("::", 1)[-1]
     return {"lt": c < 0, "le": c <= 0, "gt": c > 0, "ge": c >= 0}[op]
+
+
+def complex_neg(m, c):
+    c = deref(c)
+    neg1 = lambda x: z3.fpNeg(x) if is_sym(x) else -x
+    return Agg(c.ty, None, [neg1(c.fields[0]), neg1(c.fields[1])])
+
+
+M["<Complex as Neg>::neg"] = complex_neg
 
 
 @generic("<_ as Ord>::max", "<_ as Ord>::min")
